@@ -42,24 +42,24 @@ def main(tier, args):
         jobs += [("lookups:%s" % e, [lk, e, "6", "2", "2"]) for e in ("epoll", "select")]
         jobs += shards("plain-struct", pp, "struct", 1)
         jobs += shards("asan-struct", pa, "struct", 4)
-        jobs += shards("plain-tail2", pp, "tail", 4, 2)                   # id + every byte string of length <= 2
-        jobs += shards("asan-tail2", pa, "tail", 8, 2)
-        jobs += shards("plain-tail3s", pp, "tail3s", 16)                  # id + every 2-byte flags + third byte in {00,01,3f,40,c0,ff}
-        tail_rule = "length <=2 (both builds) and length 3 with the third byte in {00,01,3f,40,c0,ff} (plain build)"
+        jobs += shards("asan-tail2", pa, "tail", 4, 2)                    # id + every byte string of length <= 2
+        jobs += shards("plain-tail3", pp, "tail", 16, 3)                  # id + every byte string of length <= 3 (16.8 M datagrams)
+        pair_rule = ""
+        tail_rule = "length <=3 (plain build; ASan build: length <=2)"
         ldepth = "depth 6, 2 lookups, 2 servers"
     else:
-        jobs += shards("plain-tail3", pp, "tail", 16, 3)                  # id + every byte string of length <= 3 (16.8 M datagrams)
-        jobs += shards("asan-tail3s", pa, "tail3s", 16)
-        jobs += shards("asan-tail2", pa, "tail", 8, 2)
-        jobs += shards("asan-struct2", pa, "struct", 16, "pairs")         # + every pair of bytes replaced
-        jobs += shards("plain-struct2", pp, "struct", 8, "pairs")
         jobs += [("lookups:%s" % e, [lk, e, "12", "2", "2"]) for e in ("epoll", "select")]
         jobs += [("lookups:epoll-3lookups", [lk, "epoll", "8", "3", "2"]), ("lookups:epoll-3servers", [lk, "epoll", "10", "2", "3"])]
+        jobs += shards("plain-struct2", pp, "struct", 8, "pairs")         # + every pair of bytes replaced
+        jobs += shards("asan-struct2", pa, "struct", 16, "pairs")
         import shutil
         if shutil.which("valgrind"):                                      # memcheck on the plain build: structured sweeps + id + <=1 byte
             vg = ["valgrind", "-q", "--error-limit=no", "--log-file=/dev/null"]
             jobs += [("valgrind-struct:%d" % i, vg + [pp, "struct", str(i), "8"]) for i in range(8)] + [("valgrind-tail1:0", vg + [pp, "tail", "0", "1", "1"])]
-        tail_rule = "length <=3 (plain build; ASan build: length <=2 and length 3 with the third byte in {00,01,3f,40,c0,ff})"
+        jobs += shards("plain-tail3", pp, "tail", 16, 3)                  # id + every byte string of length <= 3 (16.8 M datagrams)
+        jobs += shards("asan-tail3", pa, "tail", 32, 3)
+        pair_rule = "; every pair of bytes replaced by those values"
+        tail_rule = "length <=3 (both builds)"
         ldepth = "depth 12 (fixpoint expected) with 2 lookups / 2 servers, depth 8 with 3 lookups, depth 10 with 3 servers"
     if args.only:
         jobs = [j for j in jobs if j[0].split(":")[0] == args.only or j[0] == args.only]
@@ -68,7 +68,7 @@ def main(tier, args):
     vf.run_procs(res, jobs, env=env, log=log)
     vf.finish(PID, tier, res, t0,
               rule="(I, reply parser) a real lookup is outstanding on a real DnsRequest (id 0xA5A5); every datagram goes through the protected onUdpRecv in a worker child on a 256 KiB thread stack, "
-                   "twice on equal object states: dead stack painted 0x00 / 0xA5 (48 KiB) immediately before the call; g++ -O1 plain build and ASan+UBSan build%s. "
+                   "twice on equal object states: dead stack painted 0x00 / 0xA5 (48 KiB) immediately before the call (second paint 0x01 for the id+string sweep once id and flags are present); g++ -O1 plain build and ASan+UBSan build%s. "
                    "Datagrams: 4 base replies (A; CNAME+A with compression; TXT+A; 3A+NS) x {every truncation offset; qd/an/ns/ar count in {0,1,real,real+1,255,65535}; every compression pointer -> every offset 0..len+1 "
                    "and every loop of two; every byte replaced by each of {00,01,3f,40,c0,ff}%s}; matching id + every byte string of %s. "
                    "Oracle: worker survives (no stack exhaustion = bounded recursion, no ASan/UBSan report, progress within 20 s), identical callback/status/addresses/ttls/names under both paints, datagram id matches, "
@@ -76,7 +76,7 @@ def main(tier, args):
                    "(H, lookups) BFS over histories of request(domain)/cancel/reply(lookup, server, kind in ok|servfail|nxdomain|formerr|query|unknown-id|ok-wrong-question)/tick(+1 s virtual, one loop pass), %s, epoll and select; "
                    "replies stay enabled (duplicates, any order); canonical state = lookup table + response counts + timeout wheel + timer/socket-event enabled + id counter + model; "
                    "oracle after every op: callbacks exactly as the reference model says (once, first acceptable reply / error status / timeout at tick 5, never after cancel, nothing for ignored datagrams), isRunning() = pending, cancel() result, one well-formed query per server"
-                   % ("" if quick else "; the structured sweeps also under valgrind memcheck (error counter sampled per datagram)", "" if quick else "; every pair of bytes replaced by those values", tail_rule, ldepth),
+                   % ("" if quick else "; the structured sweeps also under valgrind memcheck (error counter sampled per datagram)", pair_rule, tail_rule, ldepth),
               assumptions=["a zero-length datagram is not delivered (UdpSocket::onSocketEvent forwards rsize > 0 only)",
                            "readings L1-L6 (common.h): class not examined, RDLENGTH of A/CNAME not cross-checked, label bytes 0x40-0xbf taken as lengths, labels compared up to a NUL, trailing dots ignored, "
                            "owner/question names only framed - so laxness of that kind is not reported as a violation",
